@@ -12,6 +12,7 @@ import (
 	"reflect"
 	"slices"
 	"sort"
+	"sync"
 	"time"
 	"unsafe"
 )
@@ -92,3 +93,21 @@ func BadBoxedMap(m map[string]int) int {
 func GoodMapUses(m map[string]int) string {
 	return fmt.Sprint(len(m), m)
 }
+
+// process memory outside the store
+type memo struct{ last string }
+
+type keeperLike struct {
+	cache sync.Map
+	m     map[string]int
+	memo  *memo
+	hits  int
+}
+
+func (k *keeperLike) BadSyncCache(key, v string) { k.cache.Store(key, v) }
+
+func (k keeperLike) BadMapDelete(key string) { delete(k.m, key) }
+
+func (k keeperLike) BadPointerField(v string) { k.memo.last = v }
+
+func (k *keeperLike) BadReceiverField() { k.hits++ }
